@@ -270,8 +270,18 @@ func c01Scenario(c c01cfg) *Scenario {
 		// per new target: sequence number and time of the first 2xx probe answer
 		firstOKSeq := map[string]int{}
 		firstOKAt := map[string]time.Duration{}
+		// a probe answered later than the probe timeout is a failed probe, whatever its status
+		probeSentAt := map[int]time.Duration{}
+		for _, e := range evs {
+			if e.Kind == "probe" {
+				probeSentAt[e.Conn] = e.At
+			}
+		}
 		for _, e := range evs {
 			if e.Kind == "probe-answer" && e.Status >= 200 && e.Status <= 299 && isNew[e.Target] && e.Seq > cmd.StartSeq {
+				if sent, ok := probeSentAt[e.Conn]; ok && e.At-sent >= vProbeTO {
+					continue
+				}
 				if _, ok := firstOKSeq[e.Target]; !ok {
 					firstOKSeq[e.Target] = e.Seq
 					firstOKAt[e.Target] = e.At
